@@ -48,6 +48,13 @@ func Base() string {
 	if st, err := os.Stat(root); err != nil || !st.IsDir() {
 		root = os.TempDir()
 	}
+	// the runner gives every run a directory of its own and removes it afterwards: workers that are
+	// stopped at the end of a budget do not get to clean up after themselves
+	if r := os.Getenv("VERIF_INST_ROOT"); r != "" {
+		if err := os.MkdirAll(r, 0o755); err == nil {
+			root = r
+		}
+	}
 	d, err := os.MkdirTemp(root, "verif-inst-")
 	if err != nil {
 		panic(err)
